@@ -113,75 +113,94 @@ theorem compileFor_T {n : Ast} {prog : Prog} (h : compileFor n = .ok prog) (ht :
     List.map_append, map_mapK_nokids T _ (progKids_flatMap_nil _ _ (kids_forBind bl))]
   rfl
 
-theorem importAlias_T {loc start : Pos} {a : Ast} {prog : Prog} (h : importAlias loc start a = .ok prog) :
-    importAlias loc start (T a) = .ok prog := by
+theorem aliasSpec_T (a : Ast) (asn : Option String) (e : Option Ast) :
+    aliasSpec (T a) asn (e.map T) = aliasSpec a asn e := by
+  cases asn with
+  | none => simp only [aliasSpec, L.pos]
+  | some s =>
+    cases e with
+    | none => rfl
+    | some en => simp only [aliasSpec, Option.map_some, L.pos]
+
+theorem importAlias_T {loc start : Pos} {a : Ast} {e : Option Ast} {prog : Prog} (h : importAlias loc start a e = .ok prog) :
+    importAlias loc start (T a) (e.map T) = .ok prog := by
   simp only [importAlias, bind_ok_iff] at h
   obtain ⟨asname, h1, aname, h2, h⟩ := h
-  simp only [importAlias, getOptStr_T L (by tlit) h1, getStr_T L (by tlit) h2, bind, Except.bind]
+  simp only [importAlias, getOptStr_T L (by tlit) h1, getStr_T L (by tlit) h2, bind, Except.bind, aliasSpec_T L]
   exact h
 
-theorem importAliases_T {loc start : Pos} : ∀ (l : List Ast) (prog : Prog), importAliases loc start l = .ok prog →
-    importAliases loc start (l.map T) = .ok prog := by
+theorem importAliases_T {loc start : Pos} : ∀ (l es : List Ast) (prog : Prog), importAliases loc start l es = .ok prog →
+    importAliases loc start (l.map T) (es.map T) = .ok prog := by
   intro l
   induction l with
-  | nil => intro prog h; exact h
+  | nil => intro es prog h; exact h
   | cons a r ih =>
-    intro prog h
+    intro es prog h
     simp only [importAliases, bind_ok_iff, pure_ok_iff] at h
     obtain ⟨this, ht, rest, hr, rfl⟩ := h
-    simp only [List.map_cons, importAliases, importAlias_T L ht, ih rest hr, bind, Except.bind, pure, Except.pure]
+    have e1 := importAlias_T L ht
+    have e2 := ih es.tail rest hr
+    rw [← List.head?_map] at e1
+    rw [List.map_tail] at e2
+    simp only [List.map_cons, importAliases, e1, e2, bind, Except.bind, pure, Except.pure]
 
 theorem compileImport_T {n : Ast} {prog : Prog} (h : compileImport n = .ok prog) :
     compileImport (T n) = .ok (prog.map (Instr.mapK T)) := by
   have hk : progKids prog = [] := by
     simp only [compileImport, bind_ok_iff] at h
-    obtain ⟨_, _, _, _, _, _, h⟩ := h
-    exact importAliases_kids _ _ _ h
+    obtain ⟨_, _, _, _, _, _, _, _, h⟩ := h
+    exact importAliases_kids _ _ _ _ h
   rw [map_mapK_nokids T _ hk]
   simp only [compileImport, bind_ok_iff] at h
-  obtain ⟨loc, h1, start, h2, names, h3, h⟩ := h
-  simp only [compileImport, exprEnd_T L, h1, np_T L, h2, getNodeList_T L (by tlit) h3, bind, Except.bind]
-  exact importAliases_T L names prog h
+  obtain ⟨loc, h1, start, h2, names, h3, ends, h4, h⟩ := h
+  simp only [compileImport, exprEnd_T L, h1, np_T L, h2, getNodeList_T L (by tlit) h3, aliasEnds,
+    optNodeList_T L (by tlit) (show optNodeList n "alias_ends" = .ok ends from h4), bind, Except.bind]
+  exact importAliases_T L names ends prog h
 
-theorem importFromAlias_T {loc start : Pos} {mod : String} {a : Ast} {prog : Prog}
-    (h : importFromAlias loc start mod a = .ok prog) : importFromAlias loc start mod (T a) = .ok prog := by
+theorem importFromAlias_T {loc start : Pos} {mod : String} {a : Ast} {e : Option Ast} {prog : Prog}
+    (h : importFromAlias loc start mod a e = .ok prog) : importFromAlias loc start mod (T a) (e.map T) = .ok prog := by
   simp only [importFromAlias, bind_ok_iff] at h
   obtain ⟨asname, h1, aname, h2, h⟩ := h
-  simp only [importFromAlias, getOptStr_T L (by tlit) h1, getStr_T L (by tlit) h2, bind, Except.bind]
+  simp only [importFromAlias, getOptStr_T L (by tlit) h1, getStr_T L (by tlit) h2, bind, Except.bind, aliasSpec_T L]
   exact h
 
-theorem importFromAliases_T {loc start : Pos} {mod : String} : ∀ (l : List Ast) (prog : Prog),
-    importFromAliases loc start mod l = .ok prog → importFromAliases loc start mod (l.map T) = .ok prog := by
+theorem importFromAliases_T {loc start : Pos} {mod : String} : ∀ (l es : List Ast) (prog : Prog),
+    importFromAliases loc start mod l es = .ok prog → importFromAliases loc start mod (l.map T) (es.map T) = .ok prog := by
   intro l
   induction l with
-  | nil => intro prog h; exact h
+  | nil => intro es prog h; exact h
   | cons a r ih =>
-    intro prog h
+    intro es prog h
     simp only [importFromAliases, bind_ok_iff, pure_ok_iff] at h
     obtain ⟨this, ht, rest, hr, rfl⟩ := h
-    simp only [List.map_cons, importFromAliases, importFromAlias_T L ht, ih rest hr, bind, Except.bind, pure, Except.pure]
+    have e1 := importFromAlias_T L ht
+    have e2 := ih es.tail rest hr
+    rw [← List.head?_map] at e1
+    rw [List.map_tail] at e2
+    simp only [List.map_cons, importFromAliases, e1, e2, bind, Except.bind, pure, Except.pure]
 
 theorem compileImportFrom_T {n : Ast} {prog : Prog} (h : compileImportFrom n = .ok prog) :
     compileImportFrom (T n) = .ok (prog.map (Instr.mapK T)) := by
   have hk : progKids prog = [] := by
     simp only [compileImportFrom, bind_ok_iff] at h
-    obtain ⟨_, _, _, _, names, _, h⟩ := h
+    obtain ⟨_, _, _, _, names, _, _, _, h⟩ := h
     split at h
     · simp only [pure_ok_iff] at h; subst h; rfl
     · simp only [bind_ok_iff] at h
       obtain ⟨_, _, _, _, h⟩ := h
-      exact importFromAliases_kids _ _ _ _ h
+      exact importFromAliases_kids _ _ _ _ _ h
   rw [map_mapK_nokids T _ hk]
   simp only [compileImportFrom, bind_ok_iff] at h
-  obtain ⟨loc, h1, start, h2, names, h3, h⟩ := h
-  simp only [compileImportFrom, exprEnd_T L, h1, np_T L, h2, getNodeList_T L (by tlit) h3, bind, Except.bind]
+  obtain ⟨loc, h1, start, h2, names, h3, ends, h4, h⟩ := h
+  simp only [compileImportFrom, exprEnd_T L, h1, np_T L, h2, getNodeList_T L (by tlit) h3, aliasEnds,
+    optNodeList_T L (by tlit) (show optNodeList n "alias_ends" = .ok ends from h4), bind, Except.bind]
   cases names with
   | nil => exact h
   | cons a r =>
     simp only [bind_ok_iff] at h
-    obtain ⟨level, h4, module, h5, h⟩ := h
-    simp only [List.map_cons, getInt_T L (by tlit) h4, getOptStr_T L (by tlit) h5, bind, Except.bind]
-    exact importFromAliases_T L (a :: r) prog h
+    obtain ⟨level, h5, module, h6, h⟩ := h
+    simp only [List.map_cons, getInt_T L (by tlit) h5, getOptStr_T L (by tlit) h6, bind, Except.bind]
+    exact importFromAliases_T L (a :: r) ends prog h
 
 theorem compileReturn_T {n : Ast} {prog : Prog} (h : compileReturn n = .ok prog) :
     compileReturn (T n) = .ok (prog.map (Instr.mapK T)) := by
